@@ -343,6 +343,7 @@ type LState struct {
 	uvcache      *Upvalue
 	hasErrorFunc bool
 	yieldNRet    int // number of results the pending yield call must deliver on resume (MultRet: all)
+	nGoCalls     int // calls made through callR (pcall, metamethods, iterators, the Go API) that are running on this thread
 	mainLoop     func(*LState, *callFrame)
 	ctx          context.Context
 	ctxBase      context.Context // the context this thread's own one was derived from (nil: ctx was attached with SetContext)
